@@ -154,6 +154,7 @@ func (t *Tokenizer) Reset() {
 	// Reset position tracking
 	t.pos = NewPosition(1, 0)
 	t.lineStart = Position{}
+	t.loc = locCache{}
 
 	// Preserve lineStarts slice capacity but reset length
 	if cap(t.lineStarts) > 0 {
